@@ -742,6 +742,7 @@ func c20RunCase(slot int, c *c20Case) (recs []c20StepRec) {
 	defer func() {
 		run.openGate()
 		run.host.stopAll()
+		run.host.close()
 		run.w.close()
 	}()
 	run.seedCluster()
